@@ -54,7 +54,7 @@ extern double *mpt_values_prepare(_MPT_ARRAY_TYPE(double) *arr, long len)
 	if (len >= 0) {
 		add = len * sizeof(double);
 	}
-	else if (used < (-len)) {
+	else if ((used / (long) sizeof(double)) < (-len)) {
 		errno = EINVAL;
 		return 0;
 	} else {
